@@ -89,6 +89,7 @@ class Module:
     funcs: Dict[str, Func] = field(default_factory=dict)
     classes: Dict[str, Class] = field(default_factory=dict)
     imports: Dict[str, str] = field(default_factory=dict)  # local name -> dotted target
+    inlined: list = field(default_factory=list)  # [(new helper name, call line)] rewritten by inline.py
 
     def segment(self, node: ast.AST) -> str:
         return ast.get_source_segment(self.source, node) or ast.unparse(node)
@@ -98,6 +99,16 @@ def _set_parents(tree: ast.AST) -> None:
     for parent in ast.walk(tree):
         for child in ast.iter_child_nodes(parent):
             child._parent = parent  # type: ignore[attr-defined]
+
+
+# Inlining of new pure helpers (inline.py). Off for the two typed analyses (C01, C16): their type lookups are keyed by
+# source positions, which inlined expressions do not have; those checks follow calls interprocedurally instead.
+INLINE = True
+
+
+def set_inline_for(prop: str) -> None:
+    global INLINE
+    INLINE = prop.upper() not in ("C01", "C16")
 
 
 def parent(node: ast.AST) -> Optional[ast.AST]:
@@ -155,11 +166,18 @@ class Repo:
                 tree = ast.parse(src, filename=rel)
             except SyntaxError as e:
                 raise AnalysisError(f"{rel} does not parse: {e}")
+            inlined = []
+            if INLINE and rel.startswith(PKG):
+                from .inline import inline_new_helpers, canonicalise_accumulate_loops
+
+                inlined = inline_new_helpers(tree, rel)
+                canonicalise_accumulate_loops(tree)
             _set_parents(tree)
             modname = rel[:-3].replace(os.sep, ".")
             if modname.endswith(".__init__"):
                 modname = modname[: -len(".__init__")]
             m = Module(rel, modname, src, tree)
+            m.inlined = inlined
             self._index_module(m)
             self.modules[rel] = m
             self.by_modname[modname] = m
